@@ -85,6 +85,51 @@ func init() {
 				return uint64(128)
 			}
 		}
+		// cSHAKE (crypto/sha3.SHAKE as used by oasis-core's TupleHash): NewCSHAKE128/256(N, S), Write, Read of
+		// exactly 32 bytes. The state is the injective encoding len(N) N len(S) S followed by the written bytes;
+		// Read gives the modelled (injective) digest of it, the real function when everything is concrete.
+		mkShake := func(fn string) intrinsicFn {
+			return func(w *Worker, fr *frame, f *ssa.Function, args []value) value {
+				p := w.eng.prog.ImportedPackage("crypto/sha3")
+				if p == nil {
+					unsupported("package crypto/sha3 not loaded")
+				}
+				t := p.Type("SHAKE").Type()
+				s := zero(t).(structure)
+				N, _ := args[0].([]value)
+				S, _ := args[1].([]value)
+				buf := []value{uint64(len(N) >> 8), uint64(len(N) & 0xff)}
+				buf = append(buf, N...)
+				buf = append(buf, uint64(len(S)>>8), uint64(len(S)&0xff))
+				buf = append(buf, S...)
+				s[0] = &hashState{fn: fn, buf: buf}
+				cell := new(value)
+				*cell = s
+				return cell
+			}
+		}
+		in["crypto/sha3.NewCSHAKE128"] = mkShake("cshake128")
+		in["crypto/sha3.NewCSHAKE256"] = mkShake("cshake256")
+		in["(*crypto/sha3.SHAKE).Write"] = func(w *Worker, fr *frame, f *ssa.Function, args []value) value {
+			s, hs := state(w, args[0])
+			data := args[1].([]value)
+			nb := make([]value, 0, len(hs.buf)+len(data))
+			nb = append(append(nb, hs.buf...), data...)
+			w.set(&s[0], &hashState{fn: hs.fn, buf: nb})
+			return tuple{uint64(len(data)), iface{}}
+		}
+		in["(*crypto/sha3.SHAKE).Read"] = func(w *Worker, fr *frame, f *ssa.Function, args []value) value {
+			_, hs := state(w, args[0])
+			out := args[1].([]value)
+			if len(out) != 32 {
+				unsupported("cSHAKE model: output of %d bytes (only 32 modelled)", len(out))
+			}
+			d := w.hashBytes(hs.fn, hs.buf)
+			for i := range out {
+				w.set(&out[i], d[i])
+			}
+			return tuple{uint64(len(out)), iface{}}
+		}
 		// ed25519 verification (curve25519-voi caching verifier used by oasis-core signature.PublicKey.Verify)
 		in["(*github.com/oasisprotocol/curve25519-voi/primitives/ed25519/extra/cache.Verifier).VerifyWithOptions"] = func(w *Worker, fr *frame, f *ssa.Function, args []value) value {
 			pk, msg, sig := args[1].([]value), args[2].([]value), args[3].([]value)
